@@ -201,3 +201,37 @@ package val
 //@   property C17
 //@ lemma cmp_uint_exact(a UInt64, b UInt64): (cmpv(a, b) < 0) == (a < b) && (cmpv(a, b) == 0) == (a == b)
 //@   property C17
+
+// ---- C17: tuples ----------------------------------------------------------------------------------
+
+//@ func CompareVals(a []Value, b []Value) int
+//@   mode int
+//@   property C17
+//@   requires len(a) <= len(b)
+//@   requires forall k int :: 0 <= k && k < len(a) ==> ordered(a[k]) && sameDyn(a[k], b[k]) && notNaN(a[k]) && notNaN(b[k]) && enumRange(a[k]) && enumRange(b[k])
+//@   assigns nothing
+//@   loop 1 invariant -1 <= rangeindex && rangeindex < len(a)
+//@   loop 1 invariant forall k int :: 0 <= k && k <= rangeindex ==> cmpv(a[k], b[k]) == 0
+//@   loop 1 decreases len(a) - rangeindex
+//@   ensures result == 0 ==> (forall k int :: 0 <= k && k < len(a) ==> cmpv(a[k], b[k]) == 0)
+//@   ensures result < 0 ==> (exists j int :: 0 <= j && j < len(a) && cmpv(a[j], b[j]) < 0 && (forall k int :: 0 <= k && k < j ==> cmpv(a[k], b[k]) == 0))
+//@   ensures result > 0 ==> (exists j int :: 0 <= j && j < len(a) && cmpv(a[j], b[j]) > 0 && (forall k int :: 0 <= k && k < j ==> cmpv(a[k], b[k]) == 0))
+
+//@ func EqualVals(a []Value, b []Value) bool
+//@   mode int
+//@   property C17
+//@   requires forall k int :: 0 <= k && k < len(a) && k < len(b) ==> ordered(a[k]) && ordered(b[k]) && notNaN(a[k]) && notNaN(b[k]) && enumRange(a[k]) && enumRange(b[k])
+//@   assigns nothing
+//@   loop 1 invariant len(a) == len(b) && -1 <= rangeindex && rangeindex < len(a)
+//@   loop 1 invariant forall k int :: 0 <= k && k <= rangeindex ==> sameDyn(a[k], b[k]) && cmpv(a[k], b[k]) == 0
+//@   loop 1 decreases len(a) - rangeindex
+//@   ensures result == (len(a) == len(b) && (forall k int :: 0 <= k && k < len(a) ==> sameDyn(a[k], b[k]) && cmpv(a[k], b[k]) == 0))
+
+//@ func Equal(a Value, b Value) bool
+//@   mode bv
+//@   property C17
+//@   requires a != nil ==> ordered(a) && notNaN(a) && enumRange(a)
+//@   requires b != nil ==> ordered(b) && notNaN(b) && enumRange(b)
+//@   assigns nothing
+//@   ensures a == nil || b == nil ==> result == (a == nil && b == nil)
+//@   ensures a != nil && b != nil ==> result == (sameDyn(a, b) && cmpv(a, b) == 0)
